@@ -12,6 +12,11 @@ driver, and an oracle that states the property on the implementation's own tenso
              CQN returns cql + 0.5*TD: the CQL term is computed by the harness from the same
              forward pass and handed to the model as an opaque input.  DDPG/TD3/MADDPG/MATD3
              return (actor_loss, critic_loss): the critic loss is compared.
+* (loss suite, actor-critic learners: Box action spaces with bounds NOT symmetric around zero ([0,1]^n and per-dimension
+             bounds, n >= 3 because the critics layer-normalise the action vector); the reference clips the smoothed
+             target action to the TRUE [low, high] itself instead of calling the learner's clamp.  Double-Q learners:
+             the online network is pushed away from its target (pretraining + seeded weight noise) until the two greedy
+             actions differ on a live row; the reference gathers the TARGET's value at the ONLINE argmax.)
 * (multi-agent batches give every agent its OWN done flags — one agent done, another not, on the same row —
              in the loss and the meta suite; the meta suite then judges agent by agent)
 * meta     : metamorphic and exact.  Two identical copies of an agent (clones of one parent) learn
@@ -30,7 +35,9 @@ driver, and an oracle that states the property on the implementation's own tenso
              sample of the weights through `bellman init/step`.  Also directly after clone(), after
              learn -> one pass of Mutations.mutation() of EVERY kind (none, parameter, activation, rl_hp,
              architecture; unit probability vectors) -> learn, for every learner, always on the LIVE
-             target modules (re-read from the agent after the mutation), and after a checkpoint round trip, and n direct soft_update() calls
+             target modules (re-read from the agent after the mutation), and after a checkpoint round trip,
+             with tau = 1 x policy_freq in {2,3} x >= 4 steps for every learner (targets bit-unchanged between
+             delay steps), and after every step no target tensor may share storage with an online parameter, and n direct soft_update() calls
              against the closed form.  "Targets REALLY move": after a firing step with tau > 0 a
              target whose online network differs from it must have changed.
 """
@@ -89,7 +96,45 @@ def build_agent(case: dict):
         kw["combined_reward"] = bool(case["combined_reward"])
     if case.get("prelude") == "mut-rl_hp":
         kw["hp_config"] = agents.default_hp_config(algo)     # something for the rl_hp mutation to mutate
-    return agents.build(algo, case.get("family", "vector"), seed=int(case["seed"]), **kw)
+    with box_bounds(case.get("bounds", "sym")):
+        return agents.build(algo, case.get("family", "vector"), seed=int(case["seed"]), **kw)
+
+
+class box_bounds:
+    """build agents over Box action spaces that are NOT symmetric around zero: 'unit' = [0, 1] in every
+    dimension, 'perdim' = low (-2, 0.5, 0, -1), high (0.5, 1, 3, 2) (first n dimensions), 'sym3' = [-1, 1]^n; n = 3 (4 for other_0).  agents.py only offers
+    [-1, 1]; its act_space() is swapped for the duration of the construction."""
+
+    def __init__(self, which: str):
+        self.which = which
+
+    def __enter__(self):
+        self.orig = agents.act_space
+        if self.which in (None, "sym"):
+            return self
+        which, orig = self.which, self.orig
+
+        def act_space(kind, variant=0):
+            from gymnasium import spaces
+            if kind != "box":
+                return orig(kind, variant)
+            # three (four) dimensions: the critics layer-normalise the action vector, which for two dimensions
+            # keeps nothing but the order of the two components
+            n = 3 if variant == 0 else 4
+            if which == "unit":
+                return spaces.Box(0.0, 1.0, (n,), np.float32)
+            if which == "perdim":
+                return spaces.Box(np.array([-2.0, 0.5, 0.0, -1.0][:n], np.float32),
+                                  np.array([0.5, 1.0, 3.0, 2.0][:n], np.float32), dtype=np.float32)
+            if which == "sym3":
+                return spaces.Box(-1.0, 1.0, (n,), np.float32)
+            raise InfraError(f"unknown bounds {which!r}")
+        agents.act_space = act_space
+        return self
+
+    def __exit__(self, *exc):
+        agents.act_space = self.orig
+        return False
 
 
 def unwrap(m):
@@ -234,13 +279,14 @@ def eval_networks(agent, case, batch, seed: int):
                 sel = tg.double().max(dim=1)[0]
             yj = r.double() + gamma * (1 - d.double()) * sel
             td = float(((q_sa.double() - yj) ** 2).mean())
+            info = {"rows": len(r), "done": int(d.sum()),
+                    "argmax_differs": int(((on.argmax(dim=1) != tg.argmax(dim=1)) & (d == 0)).sum())}
             if algo == "CQN":
                 cql = float(torch.logsumexp(q_all, dim=1).mean() - q_all.mean())
                 line = f"bellman loss cqn {g} {int(dbl)} {frac(cql)} {k} " + " ".join(map(frac, nums))
-                return line, [cql + 0.5 * td], {"rows": len(r), "done": int(d.sum())}
+                return line, [cql + 0.5 * td], info
             kind = "double" if dbl else "dqn"
-            return f"bellman loss {kind} {g} {k} " + " ".join(map(frac, nums)), [td], \
-                {"rows": len(r), "done": int(d.sum())}
+            return f"bellman loss {kind} {g} {k} " + " ".join(map(frac, nums)), [td], info
         if algo in ("DDPG", "TD3"):
             obs, act, rew, nxt, done = unpack(batch)
             o = agent.preprocess_observation(obs)
@@ -253,8 +299,16 @@ def eval_networks(agent, case, batch, seed: int):
             sig = inspect.signature(agent.learn).parameters        # learn(experiences, noise_clip=0.5, policy_noise=0.2)
             policy_noise, noise_clip = sig["policy_noise"].default, sig["noise_clip"].default
             noise = torch.empty_like(act).normal_(0, policy_noise)  # actions.data.normal_(0, policy_noise)
-            noise = agent.multi_dim_clamp(-noise_clip, noise_clip, noise)
-            na = agent.multi_dim_clamp(agent.min_action, agent.max_action, na + noise)
+            noise = torch.clamp(noise, -noise_clip, noise_clip)
+            # what the statement needs: the target policy's smoothed action INSIDE the action space, i.e. clipped
+            # to the true per-dimension [low, high] of the Box (not whatever clamp the code happens to call)
+            low = torch.as_tensor(np.asarray(agent.action_space.low, dtype=np.float32))
+            high = torch.as_tensor(np.asarray(agent.action_space.high, dtype=np.float32))
+            raw = na + noise
+            na = torch.max(torch.min(raw, high), low).to(raw.dtype)
+            live = (done.reshape(-1) == 0)
+            crossed = int(((raw < low) | (raw > high))[live].sum()) if bool(live.any()) else 0
+            between = int((((raw < low) & (raw > -high)) | ((raw > high) & (raw < -low)))[live].sum()) if bool(live.any()) else 0
             qn = [c(n, na).reshape(-1) for c in crit_t]
             r, d = rew.reshape(-1), done.reshape(-1)
             nums = []
@@ -265,7 +319,7 @@ def eval_networks(agent, case, batch, seed: int):
             td = sum(float(((q.double() - yj) ** 2).mean()) for q in qs)
             kind = "ddpg" if algo == "DDPG" else "td3"
             return f"bellman loss {kind} {g} " + " ".join(map(frac, nums)), [td], \
-                {"rows": len(r), "done": int(d.sum())}
+                {"rows": len(r), "done": int(d.sum()), "crossed": crossed, "asym_sensitive": between}
         if algo in ("MADDPG", "MATD3"):
             states, actions, rewards, next_states, dones = batch
             st = agent.preprocess_observation(states)
@@ -327,12 +381,35 @@ def make_case_batch(agent, case, seed_offset: int = 0, dones=None):
     return batch
 
 
+def diverge_online(agent, case, batch) -> int:
+    """make the online network differ from its target the way training does, only faster: seeded Gaussian
+    noise on the online weights (the target keeps its values), doubled until the greedy actions of the two
+    networks differ on at least one live row of the batch.  Returns the number of such rows."""
+    if not case.get("diverge") or base_algo(case["algo"]) not in ("DQN", "CQN"):
+        return 0
+    gen = torch.Generator().manual_seed(int(case["seed"]) ^ 0xD1F)
+    _obs, _act, _rew, nxt, done = unpack(batch)
+    live = done.reshape(-1) == 0
+    sigma, rows = 0.15, 0
+    for _ in range(6):
+        with torch.no_grad():
+            for p in unwrap(agent.actor).parameters():
+                p.add_(torch.randn(p.shape, generator=gen) * sigma)
+            n = agent.preprocess_observation(nxt)
+            rows = int(((agent.actor(n).argmax(dim=1) != agent.actor_target(n).argmax(dim=1)) & live).sum())
+        if rows > 0:
+            break
+        sigma *= 2
+    return rows
+
+
 def run_loss_case(chk: Check, case: dict):
     """-> (impl lines, model lines, oracle problems, tags, detail)"""
     algo = base_algo(case["algo"])
     agent = build_agent(case)
     pretrain(agent, case, int(case.get("pretrain", 1)))
     batch = make_case_batch(agent, case)
+    diverge_online(agent, case, batch)
     lseed = int(case["seed"]) + 5
     line, defs, info = eval_networks(agent, case, batch, lseed)
     agents.seed_all(lseed)
@@ -345,15 +422,33 @@ def run_loss_case(chk: Check, case: dict):
         model = None
     else:
         model = [rat_to_float(w) for w in out.split()]
+    extra = ""
+    if "crossed" in info:
+        extra = (f"; Box low {np.asarray(agent.action_space.low).tolist()} high {np.asarray(agent.action_space.high).tolist()}"
+                 f", the smoothed target action leaves the box in {info['crossed']} entries of live rows and is clipped "
+                 f"to the true bounds by the reference")
+    if info.get("argmax_differs") is not None and case["algo"].endswith("-double"):
+        extra = (f"; double-Q: target network's value at the ONLINE network's greedy action, the two networks' greedy "
+                 f"actions differ on {info['argmax_differs']} live rows")
     for i, (a, b) in enumerate(zip(got, defs)):
         if not (np.isfinite(a) and close(a, b)):
             problems.append(f"{case['algo']}: learn returned loss {a!r} but the definition "
-                            f"mean((q - (r + gamma*(1-d)*q'))^2) on the networks' own outputs gives {b!r} (entry {i})")
+                            f"mean((q - (r + gamma*(1-d)*q'))^2) on the networks' own outputs gives {b!r} (entry {i})"
+                            + extra)
     impl_line = " ".join(f"{v:.6g}" for v in got)
     model_line = out if model is None else " ".join(f"{v:.6g}" for v in model)
     agree = model is not None and len(model) == len(got) and all(close(a, b) for a, b in zip(got, model))
     tags = [f"loss-{case['algo']}", f"fam-{case.get('family', 'vector')}", f"done-rows-{min(info['done'], 4)}"]
-    return agree, impl_line, model_line, problems, tags, {"driver_op": line[:200] + ("…" if len(line) > 200 else "")}
+    if case.get("bounds", "sym") != "sym":
+        tags.append(f"bounds-{case['bounds']}")
+    if "crossed" in info:
+        tags.append("smoothed-action-clipped" if info["crossed"] else "smoothed-action-inside")
+        if info["asym_sensitive"]:
+            tags.append("clip-differs-from-symmetric-clip")
+    if info.get("argmax_differs") and case["algo"].endswith("-double"):
+        tags.append("online-and-target-argmax-differ")
+    return agree, impl_line, model_line, problems, tags, \
+        {"driver_op": line[:200] + ("…" if len(line) > 200 else ""), "info": info}
 
 
 # ----------------------------------------------------------------------------- metamorphic suite
@@ -376,6 +471,8 @@ def run_meta_case(chk: Check, case: dict, rows=None):
     multi = algo in ("MADDPG", "MATD3")
     parent = build_agent(case)
     pretrain(parent, case, int(case.get("pretrain", 1)))
+    if case.get("diverge"):
+        diverge_online(parent, case, make_case_batch(parent, case))
     a, b = identical_clones(parent, case)
     ids = list(parent.agent_ids) if multi else []
     judge = int(case.get("judge", 0))
@@ -554,6 +651,25 @@ def run_meta_rainbow(chk: Check, case: dict, rows=None):
 
 
 # ----------------------------------------------------------------------------- tracking suite
+def shared_storage(agent) -> list[str]:
+    """target tensors whose storage is also the storage of a tensor of an online (evaluation) network:
+    such a target follows every in-place optimiser step and cannot be a lagged copy"""
+    online = {}
+    pairs = target_pairs(agent)
+    for lab, on, _tg in pairs:
+        # the tensors the optimiser steps in place: the online networks' nn.Parameters (constants such as the
+        # action bounds or Rainbow's support are legitimately the same tensor object in both networks)
+        for k, t in unwrap(on).named_parameters():
+            if t.numel():
+                online.setdefault(walker.tensor_cell(t), f"{lab}~online.{k}")
+    out = []
+    for lab, _on, tg in pairs:
+        for k, t in walker.module_tensors(unwrap(tg)).items():
+            if t.numel() and walker.tensor_cell(t) in online:
+                out.append(f"{lab}.{k} <-> {online[walker.tensor_cell(t)]}")
+    return out
+
+
 def fired_observed(algo: str, agent, ret) -> bool | None:
     if algo in ("DDPG", "TD3"):
         return ret[0] is not None
@@ -676,6 +792,10 @@ def run_track_case(chk: Check, case: dict):
                      " ".join(frac(v) for v in read_sample(agent, pos, "target")))
     impl_lines.append("ok")
     moved_any = False
+    aliased = bool(shared_storage(agent))
+    if aliased:
+        problems.append(f"{case['algo']}: target and online share storage before the first tracked step "
+                        f"(prelude {case.get('prelude', 'fresh')}): e.g. {shared_storage(agent)[0]}")
     for step in range(int(case.get("steps", 3))):
         before = {lab: snap(tg) for lab, _o, tg in target_pairs(agent)}
         c_before = counter_of(agent)
@@ -689,6 +809,11 @@ def run_track_case(chk: Check, case: dict):
                             f"{'an update' if expect_fire else 'no update'}")
         if algo in DELAYED and counter_of(agent) != c_before + 1:
             problems.append(f"{case['algo']}: learn_counter went {c_before} -> {counter_of(agent)}")
+        al = shared_storage(agent)
+        if al and not aliased:
+            aliased = True
+            problems.append(f"{case['algo']}: target and online share storage after learn step {step} (tau={tau}, "
+                            f"policy_freq {pf}): {len(al)} target tensors, e.g. {al[0]}")
         for lab, on, tg in target_pairs(agent):
             won, wtg, wbef = weights(on), weights(tg), before[lab]
             if set(wtg) != set(wbef):
@@ -826,10 +951,16 @@ def gen_loss_case(rng, tier: str, name: str | None = None, ma_dones: bool = True
     if algo in ("DDPG", "TD3"):
         case["share"] = rng.choice([True, False])
         case["policy_freq"] = rng.choice([1, 2])
+        case["bounds"] = rng.choice(["sym", "sym3", "unit", "perdim", "perdim"])   # Box bounds not symmetric around 0
     if algo in ("MADDPG", "MATD3"):
         case["action_kind"] = rng.choice(["box", "discrete"])
+        if case["action_kind"] == "box":
+            case["bounds"] = rng.choice(["sym", "unit", "perdim"])
         if algo == "MATD3":
             case["policy_freq"] = rng.choice([1, 2])
+    if algo in ("DQN", "CQN"):
+        # double-Q only differs from plain max when the online net has left its target behind
+        case["diverge"] = name.endswith("-double") or rng.random() < 0.3
     case["dones"] = gen_dones(rng, 8)
     if algo in ("MADDPG", "MATD3") and ma_dones:
         case["ma_dones"] = gen_ma_dones(rng, 8)
@@ -894,6 +1025,7 @@ def gen_track_case(rng, tier: str, name: str | None = None, prelude: str | None 
         case["steps"] = max(case["steps"], case["policy_freq"] + 1)
     if algo in ("DDPG", "TD3"):
         case["share"] = rng.choice([True, False])
+        case["bounds"] = rng.choice(["sym", "sym", "unit", "perdim"])
     if algo in ("MADDPG", "MATD3"):
         case["action_kind"] = rng.choice(["box", "discrete"])
         case["steps"] = min(case["steps"], 2 if algo == "MADDPG" else (3 if tier == "quick" else 5))
@@ -1028,9 +1160,22 @@ def run(chk: Check) -> None:
         c = json.loads(f.read_text())
         cases.append((c.get("case", c), f.name))
     # every learner at least once per suite, then random fill
-    n_loss, n_meta, n_track = (12, 20, 50) if quick else (150, 230, 420)
+    n_loss, n_meta, n_track = (12, 20, 62) if quick else (150, 230, 440)
     for nm in LOSS_ALGOS:                      # multi-agent ones with per-agent done flags
         cases.append((gen_loss_case(rng, chk.tier, nm, ma_dones=True), None))
+    # Box action spaces with bounds that are not symmetric around zero (per-dimension and [0, 1]): the smoothed
+    # target action has to be clipped to the TRUE bounds
+    for nm, bounds in (("TD3", "perdim"), ("DDPG", "perdim"), ("TD3", "unit"), ("MATD3", "perdim"), ("MADDPG", "unit")):
+        c = gen_loss_case(rng, chk.tier, nm, ma_dones=True)
+        c["bounds"] = bounds
+        if nm.startswith("MA"):
+            c["action_kind"] = "box"
+        cases.append((c, None))
+    # double-Q with an online network that has left its target behind (greedy actions differ on live rows)
+    for nm in ("CQN-double", "DQN-double", "CQN-double"):
+        c = gen_loss_case(rng, chk.tier, nm)
+        c["diverge"], c["pretrain"], c["tau"] = True, 2, rng.choice([0.5, 0.01])
+        cases.append((c, None))
     for _ in range(max(0, n_loss - len(LOSS_ALGOS))):
         cases.append((gen_loss_case(rng, chk.tier), None))
     n0 = len(cases)
@@ -1068,6 +1213,20 @@ def run(chk: Check) -> None:
             kinds = rng.sample(kinds, 2)       # ~5 s per multi-agent case
         for k in kinds:
             cases.append((gen_track_case(rng, chk.tier, nm, "mut-" + k), None))
+    # hard updates (tau = 1) under a policy delay: on the steps between two delay steps the targets must stay
+    # bit-unchanged and must never share storage with the online networks
+    for nm in TRACK_ALGOS:
+        for pf in ((2, 3) if base_algo(nm) in DELAYED else (1,)):
+            if quick and nm == "MATD3" and pf == 3:
+                continue
+            c = gen_track_case(rng, chk.tier, nm, "fresh")
+            c["tau"], c["pretrain"], c["direct"] = 1.0, 0, 0
+            if base_algo(nm) in DELAYED:
+                c["policy_freq"] = pf
+            c["steps"] = 4 if pf < 3 else 5
+            if nm == "MADDPG":
+                c["steps"] = 3
+            cases.append((c, None))
     while sum(1 for c, _ in cases if c["kind"] == "track") < n_track:
         cases.append((gen_track_case(rng, chk.tier), None))
     counts = {"loss": [0, 0], "meta": [0, 0], "track": [0, 0]}
@@ -1232,6 +1391,56 @@ def selftest(chk: Check) -> None:
                  "perturb": "done", "dones": ma["agent_0"], "ma_dones": ma}])
     finally:
         MATD3.learn = orig_ma
+    # (8) target-policy smoothing clipped to [-max_action, max_action] instead of the action space
+    from agilerl.algorithms import td3 as td3_mod
+    TD3 = td3_mod.TD3
+    orig_clamp = TD3.multi_dim_clamp
+
+    def symmetric(self, mn, mx, x):
+        if isinstance(mn, np.ndarray) and isinstance(mx, np.ndarray):
+            mn = -mx
+        return orig_clamp(self, mn, mx, x)
+    TD3.multi_dim_clamp = symmetric
+    try:
+        expect("smoothed target action clipped symmetrically instead of to the action space",
+               [{**base, "kind": "loss", "algo": "TD3", "bounds": "perdim", "policy_freq": 2, "share": False, "seed": 4242 + i}
+                for i in range(3)])
+    finally:
+        TD3.multi_dim_clamp = orig_clamp
+    # (9) hard update (tau = 1) by rebinding .data: target and online share storage
+    orig_soft4 = DDPG.soft_update
+
+    def rebinding(self, net, target):
+        for e, t in zip(net.parameters(), target.parameters()):
+            if self.tau >= 1.0:
+                t.data = e.data
+            else:
+                t.data.copy_(self.tau * e.data + (1.0 - self.tau) * t.data)
+    DDPG.soft_update = rebinding
+    try:
+        expect("tau = 1 fast path aliases target and online parameters",
+               [{**base, "kind": "track", "algo": "DDPG", "tau": 1.0, "policy_freq": 2, "share": False, "steps": 4,
+                 "pretrain": 0, "prelude": "fresh", "direct": 0}])
+    finally:
+        DDPG.soft_update = orig_soft4
+    # (10) double-Q takes the greedy action from the target network
+    orig_update2 = DQN.update
+
+    def target_argmax(self, obs, actions, rewards, next_obs, dones):
+        if not self.double:
+            return orig_update2(self, obs, actions, rewards, next_obs, dones)
+        self.double = False          # max_a Q_target(s', a) = Q_target(s', argmax_a Q_target(s', a))
+        try:
+            return orig_update2(self, obs, actions, rewards, next_obs, dones)
+        finally:
+            self.double = True
+    DQN.update = target_argmax
+    try:
+        expect("double-Q greedy action taken from the target network",
+               [{**base, "kind": "loss", "algo": "DQN-double", "diverge": True, "pretrain": 2, "seed": 4242 + i}
+                for i in range(3)])
+    finally:
+        DQN.update = orig_update2
     chk.notes.append("self-test: detected " + "; ".join(caught))
 
 
